@@ -58,7 +58,73 @@ theorem call_refines (fu : Nat) (orig cur : Bk) (c : Call) (hw : WF fu orig cur)
     (hp : (bkAt c.path cur).isSome) (hd : c.path.length + 3 ≤ fu) :
     WF fu orig (stepCall fu orig cur c) ∧
       absTop fu orig (stepCall fu orig cur c) = specCall (absTop fu orig cur) c := by
-  sorry
+  obtain ⟨b, hb⟩ := BktTxL.isSome_get hp
+  cases c with
+  | bucket p name =>
+    have h := open_refines fu orig cur p name b hw hb
+    simp only [stepCall, specCall]
+    cases hm : modifyBk (openAt fu orig p name) p cur with
+    | none => exact ⟨hw, rfl⟩
+    | some cur' =>
+      rw [hm] at h
+      exact ⟨h.1, h.2.1⟩
+  | put p k v =>
+    simp only [stepCall, specCall]
+    by_cases hi : k = [] ∨ k.length > maxKeySize ∨ v.length > maxValueSize
+    · obtain ⟨e, he⟩ := BktTxL.apiPut_invalid (absTop fu orig cur) topName p k v hi
+      simp only [if_pos hi, Option.getD_none]
+      refine ⟨hw, ?_⟩
+      unfold apiPath
+      rw [he]; rfl
+    · have hk : k ≠ [] := fun h => hi (Or.inl h)
+      have hkl : k.length ≤ maxKeySize := Nat.le_of_not_gt (fun h => hi (Or.inr (Or.inl h)))
+      have hvl : v.length ≤ maxValueSize := Nat.le_of_not_gt (fun h => hi (Or.inr (Or.inr h)))
+      obtain ⟨cur', hm, hw', ha⟩ := put_refines fu orig cur p k v b hw hb hk hkl hvl
+      simp only [if_neg hi, hm, Option.getD_some]
+      exact ⟨hw', ha⟩
+  | delete p k =>
+    obtain ⟨cur', hm, hw', ha⟩ := del_refines fu orig cur p k b hw hb
+    simp only [stepCall, specCall]
+    simp only [hm, Option.getD_some]
+    exact ⟨hw', ha⟩
+  | createBucket p name =>
+    have h := create_refines fu orig cur p name b hw hb hd
+    simp only [stepCall, specCall]
+    cases hm : modifyBk (createAt fu name) p cur with
+    | none =>
+      rw [hm] at h
+      obtain ⟨e, he⟩ := h
+      refine ⟨hw, ?_⟩
+      rw [he]; rfl
+    | some cur' =>
+      rw [hm] at h
+      refine ⟨h.1, ?_⟩
+      rw [h.2.1]; rfl
+  | deleteBucket p name =>
+    have h := deleteBucket_refines fu orig cur p name b hw hb
+    simp only [stepCall, specCall]
+    cases hm : modifyBk (deleteAt fu name) p cur with
+    | none =>
+      rw [hm] at h
+      obtain ⟨e, he⟩ := h
+      refine ⟨hw, ?_⟩
+      rw [he]; rfl
+    | some cur' =>
+      rw [hm] at h
+      refine ⟨h.1, ?_⟩
+      rw [h.2]; rfl
+  | setSequence p n =>
+    obtain ⟨cur', hm, hw', ha⟩ := setSeq_refines fu orig cur p n b hw hb
+    simp only [stepCall, specCall]
+    simp only [hm, Option.getD_some]
+    refine ⟨hw', ?_⟩
+    rw [ha]; rfl
+  | nextSequence p =>
+    obtain ⟨cur', hm, hw', ha⟩ := nextSeq_refines fu orig cur p b hw hb
+    simp only [stepCall, specCall]
+    simp only [hm, Option.getD_some]
+    refine ⟨hw', ?_⟩
+    rw [ha]; rfl
 
 /-- the calls of a transaction, each addressed to a bucket that is opened when it is made -/
 def CallsOk (fu : Nat) (orig : Bk) : Bk → List Call → Prop
@@ -75,6 +141,25 @@ theorem transaction_refines (ps sth rth fu : Nat) (orig : Bk) (calls : List Call
       fu ≤ fu' ∧ origShapeOk fu' (full orig fu [] cur') = true ∧
       absTop fu' (full orig fu [] cur') (full orig fu [] cur') =
         calls.foldl specCall (absTop fu orig orig) := by
-  sorry
+  have key : ∀ (calls : List Call) (cur : Bk), WF fu orig cur → CallsOk fu orig cur calls →
+      WF fu orig (calls.foldl (stepCall fu orig) cur) ∧
+        absTop fu orig (calls.foldl (stepCall fu orig) cur) =
+          calls.foldl specCall (absTop fu orig cur) := by
+    intro calls
+    induction calls with
+    | nil => intro cur hw _; exact ⟨hw, rfl⟩
+    | cons c cs ih =>
+      intro cur hw hok
+      obtain ⟨hp, hd, hrest⟩ := hok
+      obtain ⟨hw', ha⟩ := call_refines fu orig cur c hw hp hd
+      obtain ⟨hw'', ha'⟩ := ih (stepCall fu orig cur c) hw' hrest
+      refine ⟨hw'', ?_⟩
+      simp only [List.foldl_cons]
+      rw [ha', ha]
+  obtain ⟨hwf, habs⟩ := key calls (closeAll orig) (start_wf fu orig ho) hc
+  obtain ⟨cur', fu', hcm, _, hle, hshape, hfull⟩ :=
+    commitBk_refines ps sth rth fu orig _ order hwf hf hcov
+  refine ⟨cur', fu', hcm, hle, hshape, ?_⟩
+  rw [hfull, habs, start_abs fu orig ho]
 
 end Bolt.C04Bkt
